@@ -488,9 +488,9 @@ def ob_filter_chain(chk, P):
 
 def run(chk):
     P = chk.program(('core', 'lib'))
-    ob_slice(chk, P, 3 if chk.tier == 'quick' else 4)
-    ob_truncate(chk, P, 3 if chk.tier == 'quick' else 4)
-    ob_simple_filters(chk, P, 3 if chk.tier == 'quick' else 4)
-    ob_size(chk, P, 3)
+    ob_slice(chk, P, 5 if chk.tier == 'quick' else 6)
+    ob_truncate(chk, P, 5 if chk.tier == 'quick' else 6)
+    ob_simple_filters(chk, P, 5 if chk.tier == 'quick' else 6)
+    ob_size(chk, P, 4)
     ob_default(chk, P, 3)
     ob_filter_chain(chk, P)
